@@ -43,6 +43,7 @@ func c08Ops() []c08Op {
 		ops = append(ops, c08Op{kind: "resume", k: k, name: fmt.Sprintf("client resumes with the id of event #%d", k)})
 	}
 	ops = append(ops, c08Op{kind: "resume2", name: "a second, concurrent resume with the latest id"})
+	ops = append(ops, c08Op{kind: "purge", name: "memory pressure: the event store evicts what it can"})
 	return ops
 }
 
@@ -50,6 +51,10 @@ type c08Opts struct {
 	version    string
 	standalone bool
 	maxBytes   int // 0 = unlimited (default)
+	// purge: the history may contain "memory pressure" steps (the in-memory store is squeezed to one
+	// byte and released again); a resume whose messages were evicted may then be refused, but a resume
+	// that is served still delivers exactly what was written after its resume point
+	purge bool
 }
 
 func c08Run(t *testing.T, o c08Opts, ops []c08Op, hist []int) (out verifx.SearchResult) {
@@ -181,6 +186,7 @@ func c08InBubble(o c08Opts, ops []c08Op, hist []int) verifx.SearchResult {
 		return ""
 	}
 	writes := 0
+	purges := 0
 	responded := false
 	var attached *c08Exchange = first
 	idToData := map[string]string{}
@@ -266,6 +272,14 @@ func c08InBubble(o c08Opts, ops []c08Op, hist []int) verifx.SearchResult {
 				responded = true
 			}
 			obs = "write"
+		case "purge":
+			if !o.purge || purges >= 2 {
+				return verifx.SearchResult{Skip: true}
+			}
+			purges++
+			mem.SetMaxBytes(1)
+			mem.SetMaxBytes(0)
+			obs = "purge"
 		case "cut":
 			if attached == nil || attached.cut || attached.ended {
 				return verifx.SearchResult{Skip: true}
@@ -307,6 +321,8 @@ func c08InBubble(o c08Opts, ops []c08Op, hist []int) verifx.SearchResult {
 					return bad("concurrent-resume-not-refused", "%s: the stream is attached to exchange %d, a second resume got status %d", where, attached.n, x.status)
 				}
 				obs = "resume-409"
+			case x.status != 200 && x.status != 0 && purges > 0:
+				obs = "resume-refused-after-eviction"
 			case x.status != 200 && x.status != 0:
 				return bad(fmt.Sprintf("resume-status-%d", x.status), "%s: resume from an issued id answered %d", where, x.status)
 			default:
@@ -325,6 +341,9 @@ func c08InBubble(o c08Opts, ops []c08Op, hist []int) verifx.SearchResult {
 		ids := issuedIDs()
 		if len(ids) > 0 {
 			x, err := open("GET", "", sid, ids[0])
+			if err == nil && x.status != 200 && x.status != 0 && purges > 0 {
+				return verifx.SearchResult{Key: fmt.Sprintf("evicted appended=%d writes=%d last=%s", len(store.appended[streamKey]), writes, obs), Obs: "final-resume-refused-after-eviction"}
+			}
 			if err != nil || (x.status != 200 && x.status != 0) {
 				return bad("final-resume-failed", "a final resume from %q answered %v %v", ids[0], x.status, err)
 			}
@@ -347,7 +366,7 @@ func c08InBubble(o c08Opts, ops []c08Op, hist []int) verifx.SearchResult {
 	if attached != nil && !attached.ended && !attached.cut {
 		att = fmt.Sprintf("attached@%d", attached.startIdx)
 	}
-	return verifx.SearchResult{Key: fmt.Sprintf("appended=%d responded=%v %s writes=%d last=%s", len(gt), responded, att, writes, obs), Obs: obs}
+	return verifx.SearchResult{Key: fmt.Sprintf("appended=%d responded=%v %s writes=%d purges=%d last=%s", len(gt), responded, att, writes, purges, obs), Obs: obs}
 }
 
 func TestVerifC08(t *testing.T) {
@@ -361,6 +380,7 @@ func TestVerifC08(t *testing.T) {
 		{"request-stream/2025-06-18", c08Opts{version: "2025-06-18"}},
 		{"request-stream/2025-11-25-priming", c08Opts{version: "2025-11-25"}},
 		{"standalone-stream/2025-06-18", c08Opts{version: "2025-06-18", standalone: true}},
+		{"request-stream/2025-06-18+memory-pressure", c08Opts{version: "2025-06-18", purge: true}},
 	} {
 		env.RunSearch(res, &verifx.Search{
 			Name: o.name, NumOps: len(ops), OpName: func(i int) string { return ops[i].name },
